@@ -33,11 +33,11 @@ func rtEqualReports(c *Ctx, n int) {
 		var versions []*ruCfg
 		var snaps []string
 		var trace []string
-		cur := ruContent{name: "n0", count: 1, limits: map[string]int{"a": 1}, tags: []string{"t"}, opt: 1, hasOpt: true, w: map[string]int{"w": 1}}
+		cur := ruContent{name: "n0", count: 1, limits: map[string]int{"a": 1}, tags: []string{"t"}, opt: 1, hasOpt: true, w: map[string]int{"w": 1}, hosts: []string{"h0", "h"}, quota: 1}
 		failed := false
 		for k := 1; k <= steps && !failed; k++ {
 			if r.Chance(40) { // otherwise: the same content again
-				cur = ruContent{name: fmt.Sprintf("n%d", k), count: k, limits: map[string]int{"a": k, "b": 2 * k}, tags: []string{fmt.Sprintf("t%d", k)}, opt: k, hasOpt: true, w: map[string]int{"w": k}}
+				cur = ruContent{name: fmt.Sprintf("n%d", k), count: k, limits: map[string]int{"a": k, "b": 2 * k}, tags: []string{fmt.Sprintf("t%d", k)}, opt: k, hasOpt: true, w: map[string]int{"w": k}, hosts: []string{fmt.Sprintf("h%d", k), "h"}, quota: k}
 				trace = append(trace, fmt.Sprintf("step %d: new content", k))
 			} else {
 				trace = append(trace, fmt.Sprintf("step %d: the same content again", k))
